@@ -71,7 +71,7 @@ ASSUMPTIONS = [
 	"func itself is assumed (C06/C09); tolerance 1e-9 on float64",
 	"caller tensors being modified is only counted (not part of C08)",
 ]
-REQUIRED = {"seed_history_calls": 20, "cap_calls_observed": 50, "ann_ne_out_cases": 10,
+REQUIRED = {"failed_wrapper_calls": 20, "seed_history_calls": 20, "cap_calls_observed": 50, "ann_ne_out_cases": 10,
 	"product_nondividing": 10, "args_cases": 50}
 TIMEOUT = {"quick": 900, "thorough": 5400}
 # cases cost 1-10 ms, a worker start (torch + numba imports) ~10 s
@@ -1031,6 +1031,95 @@ def case_product(cls, params, rec):
 			det)
 
 
+class _Injected(Exception):
+	pass
+
+
+def case_failure_reuse(cls, params, rec):
+	"""Fault sequence: a wrapper call whose func raises at its k-th
+	application, followed by the same call again on the SAME caller tensors.
+	The second call's 'before' must be func on the unmodified inputs, i.e. a
+	failed call must not have left an edit in the caller's X / X0 / args."""
+	from tangermeme.marginalize import marginalize, marginalize_annotations
+	from tangermeme.ablate import ablate, ablate_annotations
+	from tangermeme.space import space
+	r = gen.pyrng(ID, "failreuse", params["hseed"])
+	B, L = params["B"], params["L"]
+	seqs = distinct_seqs(r, B, L)
+	X = gen.ohe(seqs, dtype=torch.float32)
+	X0 = gen.ohe(distinct_seqs(r, B, L), dtype=torch.float32)
+	a = torch.arange(B, dtype=torch.float64)[:, None] + 0.5
+	model = torch.nn.Identity()
+	state = {"n": 0, "fail_at": None}
+
+	def func(model, X, args=None, **kw):
+		state["n"] += 1
+		if state["fail_at"] is not None and state["n"] == state["fail_at"]:
+			raise _Injected("func application %d" % state["n"])
+		return X.clone().to(torch.float64)
+
+	fn = params["wrapper"]
+	ann = torch.tensor([[i % B, 1 + i, 4 + i] for i in range(3)])
+	if fn == "marginalize":
+		call = lambda: marginalize(model, X, "ACG", start=params["pos"],
+			func=func, args=(a,))
+	elif fn == "marginalize_annotations":
+		call = lambda: marginalize_annotations(model, X, X0, ann, func=func)
+	elif fn == "ablate":
+		call = lambda: ablate(model, X, 2, 7, n=2, random_state=3, func=func,
+			args=(a,))
+	elif fn == "ablate_annotations":
+		call = lambda: ablate_annotations(model, X, ann, n=2, random_state=3,
+			func=func, args=(a,))
+	else:
+		call = lambda: space(model, X, ["AC", "GT"], [[1], [2]], start=2,
+			func=func)
+	state["n"], state["fail_at"] = 0, None
+	st, exp = gen.call(call)
+	total = state["n"]
+	if st == "raise":
+		rec.violation(cls, params, {"what": "%s raised without any fault" %
+			fn, "error": repr(exp)[:300]}, mech="C08/%s-raised" % fn)
+		return
+	rec.setadd("func_applications", "%s: %d" % (fn, total))
+	for k in range(1, total + 1):
+		mon = gen.Immutable(X=X, X0=X0, a=a, ann=ann)
+		state["n"], state["fail_at"] = 0, k
+		st, val = gen.call(call)
+		state["fail_at"] = None
+		rec.count("failed_wrapper_calls")
+		det = {"wrapper": fn, "sequences": seqs, "failed_func_application": k,
+			"of": total}
+		if st == "ok":
+			rec.violation(cls, params, dict(det, what="the exception raised "
+				"by func was swallowed"), mech="C08/func-exception-swallowed")
+			return
+		if mon.changed():
+			rec.violation(cls, params, dict(det, what="caller tensors were "
+				"left modified by the failed call", tensors=mon.changed()),
+				mech="C08/caller-input-modified-by-failed-call")
+			return
+		state["n"] = 0
+		st, again = gen.call(call)
+		same = st == "ok" and _same_nested(again, exp)
+		if not same:
+			rec.violation(cls, params, dict(det, what="the same call after "
+				"the failed one returns another result"),
+				mech="C08/wrong-after-failed-call")
+			return
+	rec.held(cls, params, nontrivial=total >= 2)
+
+
+def _same_nested(a, b):
+	if isinstance(a, torch.Tensor):
+		return isinstance(b, torch.Tensor) and a.shape == b.shape and \
+			torch.equal(a, b)
+	if isinstance(a, (list, tuple)):
+		return isinstance(b, (list, tuple)) and len(a) == len(b) and all(
+			_same_nested(x, y) for x, y in zip(a, b))
+	return a == b
+
+
 def case_ablate_seed_history(cls, params, rec):
 	"""Call history: ablate(..., random_state=s_k, func=deep_lift_shap) for a
 	sequence of different seeds on the same model.  The documentation says
@@ -1102,6 +1191,8 @@ CASES = {
 
 
 def run_case(cls, params, rec):
+	if params["fn"] == "failure_reuse":
+		return case_failure_reuse(cls, params, rec)
 	if params["fn"] == "ablate_seed_history":
 		with warnings.catch_warnings():
 			warnings.simplefilter("ignore")
@@ -1321,6 +1412,13 @@ def run_unit(unit, rec):
 	if cls == "attr":
 		return run_attr_unit(unit, rec)
 	if cls == "seedhist":
+		r0 = gen.pyrng(ID, unit["seed"], "failreuse", unit["rep"])
+		for w in ("marginalize", "marginalize_annotations", "ablate",
+			"ablate_annotations", "space"):
+			run_case("failure-reuse", {"fn": "failure_reuse", "func": "cap-x",
+				"n_args": 0, "wrapper": w, "B": r0.randint(2, 4),
+				"L": r0.randint(12, 20), "pos": r0.randint(0, 8),
+				"hseed": r0.randrange(10 ** 6)}, rec)
 		r = gen.pyrng(ID, unit["seed"], "seedhist", unit["rep"])
 		for t in range(3):
 			L = r.randint(12, 24)
